@@ -27,10 +27,10 @@ func (Engine) Name() string { return "E3-url" }
 // Runs implements core.Engine.
 func (Engine) Runs(prop, tier string) int {
 	if tier == "thorough" {
-		return 1500000
+		return 12000000
 	}
 
-	return 60000
+	return 300000
 }
 
 // Describe implements core.Engine.
